@@ -3,7 +3,9 @@
    ([lens_code] = circle_circle_intersection_area after fixes/C17-acos-clamp.diff,
    [lens_code_orig] = before it, [lens] = the value both compute over R). *)
 From Coq Require Import Reals.
-From FrameModel Require Import Disc.Lens Disc.LensFacts.
+From Coq Require Import List.
+From FrameModel Require Import Disc.Lens Disc.LensFacts Disc.LensCoincide Disc.LensState.
+Import ListNotations.
 Open Scope R_scope.
 
 (* totality, part 1: whenever the code reaches its middle branch (neither far
@@ -79,3 +81,61 @@ Print Assumptions C17_lens_continuous_cases.
 Example C17_middle_case_inhabited :
   0 < 2 /\ 0 < 3 /\ ~ (2 + 3 < 4) /\ ~ (4 <= Rabs (2 - 3)).
 Proof. exact middle_case_example. Qed.
+
+(* ---------- exact coincidences (harness: coincidence stream) ----------
+   radii and centre distance forming an exact right triangle.  Right angle at the
+   centre of the first disc (the common chord passes through that centre; 3-4-5:
+   r1 = 3, d = 4, r2 = 5): the first cosine is exactly 0, the code is in its middle
+   branch, does not fail, and returns the closed form - in both argument orders. *)
+Theorem C17_right_angle_at_centre : forall r1 r2 d, 0 < r1 -> 0 < r2 -> 0 < d ->
+  r2 ^ 2 = r1 ^ 2 + d ^ 2 ->
+  lens_code r1 r2 d = Some (r1 ^ 2 * (PI / 2) + r2 ^ 2 * acos (d / r2) - d * r1) /\
+  lens_code r2 r1 d = Some (r1 ^ 2 * (PI / 2) + r2 ^ 2 * acos (d / r2) - d * r1).
+Proof. exact lens_code_right_at_first. Qed.
+Print Assumptions C17_right_angle_at_centre.
+
+Theorem C17_right_angle_cosine_zero : forall r1 r2 d, 0 < r1 -> 0 < d ->
+  r2 ^ 2 = r1 ^ 2 + d ^ 2 -> cosarg r1 r2 d = 0.
+Proof. exact cosarg_right_at_first. Qed.
+Print Assumptions C17_right_angle_cosine_zero.
+
+(* right angle at the intersection points (orthogonal circles; r1 = 3, r2 = 4, d = 5) *)
+Theorem C17_orthogonal_circles : forall r1 r2 d, 0 < r1 -> 0 < r2 -> 0 < d ->
+  d ^ 2 = r1 ^ 2 + r2 ^ 2 ->
+  lens r1 r2 d = r1 ^ 2 * acos (r1 / d) + r2 ^ 2 * acos (r2 / d) - r1 * r2.
+Proof. exact lens_orthogonal. Qed.
+Print Assumptions C17_orthogonal_circles.
+
+Example C17_right_angle_inhabited : 0 < 3 /\ 0 < 5 /\ 0 < 4 /\ 5 ^ 2 = 3 ^ 2 + 4 ^ 2.
+Proof. exact right_at_first_3_4_5. Qed.
+Example C17_orthogonal_inhabited : 0 < 3 /\ 0 < 4 /\ 0 < 5 /\ 5 ^ 2 = 3 ^ 2 + 4 ^ 2.
+Proof. exact orthogonal_3_4_5. Qed.
+(* a non-axis offset: centres (0,0) and (1,2), radii 2 and 3: 2^2 + 5 = 3^2 *)
+Example C17_right_angle_offset_1_2 : 3 ^ 2 = 2 ^ 2 + dist 0 0 1 2 ^ 2.
+Proof. exact right_at_first_offset_1_2. Qed.
+
+(* ---------- a function of its arguments (harness: state runs) ----------
+   [overlap_code] has no parameter for the process state (the class-wide Rectangle
+   tolerances).  Over histories of set_epsilon / undefine_epsilon / Die loading /
+   calls (Disc/LensState.v) the results are those of the calls alone: the same from
+   every initial state and for every interleaving of state operations. *)
+Theorem C17_overlap_same_in_every_state : forall (g g' : gstate) x1 y1 r1 x2 y2 r2,
+  overlap_in g x1 y1 r1 x2 y2 r2 = overlap_in g' x1 y1 r1 x2 y2 r2.
+Proof. exact overlap_in_any_state. Qed.
+Print Assumptions C17_overlap_same_in_every_state.
+
+Theorem C17_history_results_are_the_calls : forall h g, run_hist g h = calls h.
+Proof. exact run_hist_calls. Qed.
+Print Assumptions C17_history_results_are_the_calls.
+
+Theorem C17_history_same_from_every_state : forall h g g', run_hist g h = run_hist g' h.
+Proof. exact run_hist_any_state. Qed.
+Print Assumptions C17_history_same_from_every_state.
+
+(* the value is the same for every gstate: two unit discs at distance 19/10, before and
+   after a 5e10 x 2e10 die was loaded, after set_epsilon(3/10), after undefine_epsilon *)
+Example C17_same_value_for_every_state :
+  run_hist None [Call 0 0 1 (19/10) 0 1; LoadDie 50000000000 20000000000; Call 0 0 1 (19/10) 0 1;
+                 SetEps (3/10); Call 0 0 1 (19/10) 0 1; Undefine; Call 0 0 1 (19/10) 0 1]
+  = let v := overlap_code 0 0 1 (19/10) 0 1 in [v; v; v; v].
+Proof. exact history_example. Qed.
